@@ -452,6 +452,36 @@ def main(argv):
                         {"op": "commoncrawl_dedupe", "kind": "output", "stdin_hex": hexs(data[:4000]), "stdout_hex": hexs(so[:4000]),
                          "expected_hex": hexs(b"".join(l + b"\n" for l in want)[:4000])})
 
+    # commoncrawl_dedupe with a file of lines to exclude: still only well-formed lines, minus the excluded ones
+    rm_lines = [b"abc", b"  \xc3\xa9  ", b"\xff", b"a\x00b"]
+    rm_path = os.path.join(SCRATCH, "remove_these")
+    os.makedirs(SCRATCH, exist_ok=True)
+    open(rm_path, "wb").write(b"".join(l + b"\n" for l in rm_lines))
+    rm_set = set(l.strip(SP) for l in rm_lines)
+    for data in files[:25]:
+        data = data + b"\nabc\n\xc3\xa9\nkept \xe2\x82\xac\nbad\xc0\xaf\n"
+        st, so, se = run_tool([repo_bin("commoncrawl_dedupe"), rm_path], stdin=data, timeout=60)
+        c.count(("ccd-remove", data), bucket="tool/commoncrawl_dedupe-with-remove-file")
+        c.cov["traces_validated_against_impl"] += 1
+        seen, want = set(rm_set), []
+        lines_in = data.split(b"\n")
+        if lines_in and lines_in[-1] == b"":
+            lines_in.pop()
+        for l in lines_in:
+            l = l.strip(SP)
+            if l.startswith(MAGIC) or l in seen:
+                continue
+            seen.add(l)
+            if py_is_utf8(l):
+                want.append(l)
+        if st != 0 or so != b"".join(l + b"\n" for l in want):
+            bad = [l for l in so.split(b"\n")[:-1] if not py_is_utf8(l)]
+            c.violation("tool/commoncrawl_dedupe-remove-file: with a file of lines to exclude the output %s (status %s)" % (
+                "contains the ill-formed line %r" % bad[0] if bad else "differs from the stripped, first-seen, not excluded, well-formed lines", st),
+                {"op": "commoncrawl_dedupe", "kind": "remove-file", "remove_file_hex": hexs(open(rm_path, "rb").read()), "stdin_hex": hexs(data[:4000]),
+                 "stdout_hex": hexs(so[:4000]), "expected_hex": hexs(b"".join(l + b"\n" for l in want)[:4000])})
+            break
+
     # ---- foldfilter hands its child pieces of (well-formed) lines: every piece must be well-formed, whatever the width
     good_lines = []
     for _ in range(25 if c.tier == "quick" else 250):
